@@ -405,7 +405,7 @@ func (m *c12Model) resetToApplied(g *scen.Git) {
 
 func runC12(c *fw.Ctx) {
 	r := c.Rand(uint64(1200 + c.Shard))
-	n := c.Pick(32, 3000) / c.NShards
+	n := c.Pick(32, 400) / c.NShards
 	if n < 2 {
 		n = 2
 	}
